@@ -127,7 +127,31 @@ def angle(h, n=2):
     h.holds("angle lies in [0, pi]", sinang >= 0)
 
 
-def regular_polygon(h, sides=4, by='angle', chart=0):
+def angle_general(h, n=2):
+    """angle between two arbitrary (non-unit, different length) tangent vectors at p: cos = <v1,v2> / (|v1| |v2|) of the projected vectors"""
+    x = _interior(h, 'x', n)
+    w1, w2 = h.arr('w', (n + 1,)), h.arr('u', (n + 1,))
+    p = hyperbolic.Point(x.copy(), model="klein")
+    t1 = hyperbolic.TangentVector(p, w1.copy())
+    t2 = hyperbolic.TangentVector(hyperbolic.Point(x.copy(), model="klein"), w2.copy())
+    J = _J(n)
+    v1, v2 = t1.vector.copy(), t2.vector.copy()
+    n1, n2 = v1 @ J @ v1, v2 @ J @ v2
+    h.assume(n1 > 0, 'non-zero tangent vector')
+    h.assume(n2 > 0, 'non-zero tangent vector')
+    ang = t1.angle(t2)
+    c = ang.cos() if h.is_sym() else np.cos(ang)
+    s_ = ang.sin() if h.is_sym() else np.sin(ang)
+    # c * |v1| |v2| = <v1, v2> ; avoid square roots on the reference side: compare squares and signs
+    g = v1 @ J @ v2
+    h.eq("cos(angle)^2 |v1|^2 |v2|^2 = <v1,v2>^2", c * c * n1 * n2, g * g, validate=False)
+    h.holds("cos(angle) has the sign of <v1,v2>", ((c >= 0) & (g >= 0)) | ((c <= 0) & (g <= 0)) if h.is_sym() else bool(c * g >= -1e-12))
+    h.holds("angle lies in [0, pi]", s_ >= 0)
+    ang2 = t2.angle(t1)
+    h.eq("symmetric", ang2.cos() if h.is_sym() else np.cos(ang2), c, validate=False)
+
+
+def regular_polygon(h, sides=4, by='angle', chart=0, dimension=2):
     """regular n-gon with symbolic interior angle a = 2*alpha: n vertices equidistant from the origin, equal sides, interior angle a"""
     h.stub('kernel', mode='flag')
     n = sides
@@ -147,13 +171,13 @@ def regular_polygon(h, sides=4, by='angle', chart=0):
         a = 2 * alpha
         kw = {}
         if by == 'angle':
-            poly = hyperbolic.Polygon.regular_polygon(n, angle=a, **kw)
+            poly = hyperbolic.Polygon.regular_polygon(n, angle=a, dimension=dimension, **kw)
         else:
             rad = hyperbolic.regular_polygon_radius(n, a)
-            poly = hyperbolic.Polygon.regular_polygon(n, radius=rad, **kw)
+            poly = hyperbolic.Polygon.regular_polygon(n, radius=rad, dimension=dimension, **kw)
         V = poly.proj_data
-        h.eq("number of vertices", np.array(V.shape), np.array([n, 3]))
-        J = _J(2)
+        h.eq("number of vertices", np.array(V.shape), np.array([n, dimension + 1]))
+        J = _J(dimension)
         # distances through Minkowski products of the (unnormalised) vertices: cosh d(u,v) = -<u,v>/sqrt(<u,u><v,v>)
         nr = [V[k] @ J @ V[k] for k in range(n)]
         for k in range(1, n):
